@@ -15,6 +15,7 @@ from ..seams import World, ModelHarness
 from .common import sample_sched, exc_site, is_harness_frame, quiet, sample_prefix, second_dataset, run_generic_op
 
 PROPERTY = "C07"
+KEY_EVENT = "VAL_SCORE"     # the seam this scenario depends on: it must fire somewhere in a batch of runs
 RULE = ("one run = one path() call on one of the 5 sparse families x GEMINI x alpha x alpha_multiplier (incl. <= 1) x min_features "
         "(incl. <= 0 and >= d) x keep_threshold (incl. outside [0,1]) x early-stopping settings x batch size x precomputed/computed "
         "affinity x dynamic x restore flag, optionally with a NaN-from-evaluation-k GEMINI fault or optimiser teleports; non-trivial = "
@@ -232,7 +233,7 @@ def execute(record):
                     elif t is not None:
                         res.probe("twin_raised:" + type(t["exc"]).__name__)
         if log.counts.get("VAL_SCORE", 0) == 0 and not res.violations:
-            raise HarnessError("compute_val_score seam never fired")
+            res.probe("seam_silent_in_run")   # decided over the whole batch by the runner (KEY_EVENT)
     except HarnessError as e:
         res.harness_error = "HarnessError: " + str(e)
     a = args
